@@ -489,13 +489,19 @@ func (g *commonGen) template(w *World, name string, b int) []Step {
 		if a < len(w.Accts) && w.KB.TOTPSecret[a] != "" {
 			out = append(out, Step{Kind: "totp_validate", B: b, A: a, Sec: &SecretRef{Kind: "totp", A: a}})
 			sec, str := g.codeFor(w, "totp_remove", a, b)
-			if g.r.Chance(1, 3) {
+			var gap time.Duration
+			switch g.r.Intn(4) {
+			case 0:
 				// a re-enrolment is started and abandoned: the code of the
 				// secret waiting in the session is not a code of the account
 				out = append(out, Step{Kind: "totp_setup", B: b, A: a})
 				sec, str = &SecretRef{Kind: "totp_pending", A: b}, nil
+			case 1:
+				// the code of the login again, minutes later: stale by then
+				sec, str = &SecretRef{Kind: "totp_again", A: a}, nil
+				gap = 2*time.Minute + g.r.Dur(0, time.Hour)
 			}
-			out = append(out, Step{Kind: "totp_remove", B: b, A: a, Sec: sec, Str: str})
+			out = append(out, Step{Kind: "totp_remove", B: b, A: a, Sec: sec, Str: str, Gap: gap})
 		} else if a < len(w.Accts) && w.KB.SMSNumber[a] != "" {
 			out = append(out, Step{Kind: "sms_validate", B: b, A: a, Sec: &SecretRef{Kind: "sms", A: -1, Idx: -1}},
 				Step{Kind: "sms_remove", B: b, A: a, Sec: &SecretRef{Kind: "empty"}, Gap: 11 * time.Second},
